@@ -59,7 +59,10 @@ func checkBuild(w WS, o BuildOpts, p Prediction, res Result, sb *Sandbox, expect
 	for _, l := range p.Selected {
 		v := p.Verdict[l]
 		n := res.Started[l]
-		if n > 1 && !p.Faulted {
+		// More than once is only asserted where the model knows the cache state: with injected faults, or with an
+		// entry of unknown usability (written while caching was off), a dependency that cannot be restored is
+		// re-run on behalf of each dependant that needs it and, if it keeps failing, once per dependant.
+		if n > 1 && !p.Faulted && v != May {
 			return pbt.Fail(sig("C03", "executed-twice"), "%s was executed %d times in one build%s", l, n, tail())
 		}
 		switch {
